@@ -133,6 +133,32 @@ func checkCast(c *h.Ctx, s dtStr, method string, prec int, tz bool, zone string)
 			if c.WantSample(clause) {
 				c.Sample(clause, map[string]any{"path": ptxt, "doc": s.s, "tz": tz, "zone": zone, "result": o.Summary()})
 			}
+			// the cast is the same cast through every entry point, with the same
+			// options: a value where Query has one, the time-zone error where
+			// Query raises it
+			if tail == "" && (o.Class == h.OK || o.Class == h.Hard) {
+				for _, e := range []string{"first", "exists", "existsormatch"} {
+					oe := h.Call(e, p, s.s, ec.Opts())
+					c.Eval(1)
+					good := oe.Class == o.Class
+					if good && o.Class == h.OK && e != "first" {
+						good = oe.Bool == (len(o.Items) > 0)
+					}
+					if good && o.Class == h.Hard {
+						good = oe.ErrText() == o.ErrText()
+					}
+					if oe.Class == h.Panic {
+						continue
+					}
+					if !good {
+						ecs := ec.Case()
+						ecs.Entry = e
+						c.Violate(clause, h.F("method", method, "entry", e, "tz", fmt.Sprint(tz)), fmt.Sprintf("Query(%s) on %q (WithTZ=%v, zone=%q) = %s but %s = %s", ptxt, s.s, tz, zone, o.Summary(), e, oe.Summary()), ecs)
+					} else {
+						c.Held(clause)
+					}
+				}
+			}
 		case strings.HasPrefix(verdict, "skip:"):
 			c.Skip(clause, strings.TrimPrefix(verdict, "skip:"))
 		default:
